@@ -356,3 +356,39 @@ func BigSpec(seed uint64, blocks, seqs, actions int) PlanSpec {
 	}
 	return ps
 }
+
+// Inflate returns a copy of the specification in which the first sequence of the first block has seqActions actions
+// (seqActions <= 0: unchanged) and, when checksActions > 0, the plan-level post-check group has checksActions actions
+// (the group is created if the plan has none). The added actions are copies of the container's first action with distinct
+// names; the result is a pure function of the arguments. It builds the rare "huge container" class (hundreds to more than
+// a thousand actions in one container) without putting that many generated actions into the case value.
+func Inflate(ps PlanSpec, seqActions, checksActions int) PlanSpec {
+	out := Pristine(ps) // deep copy; these plans are created pristine anyway
+	grow := func(as []ActionSpec, n int, fallbackPlugin int) []ActionSpec {
+		proto := ActionSpec{Name: "x", Descr: "x", Plugin: fallbackPlugin, Timeout: timeouts[0]}
+		if len(as) > 0 {
+			proto = as[0]
+		}
+		o := append([]ActionSpec(nil), as...)
+		for i := len(o); i < n; i++ {
+			a := proto
+			a.Name = fmt.Sprintf("%s#%d", proto.Name, i)
+			a.HasKey = false
+			o = append(o, a)
+		}
+		return o
+	}
+	if seqActions > 0 && len(out.Blocks) > 0 && len(out.Blocks[0].Seqs) > 0 {
+		sq := &out.Blocks[0].Seqs[0]
+		sq.Actions = grow(sq.Actions, seqActions, PlugNilAction)
+	}
+	if checksActions > 0 {
+		g := out.Checks[GPost]
+		if g == nil {
+			g = &ChecksSpec{}
+		}
+		g.Actions = grow(g.Actions, checksActions, PlugNilCheck)
+		out.Checks[GPost] = g
+	}
+	return out
+}
